@@ -18,7 +18,8 @@ def main():
              (('f3', Some(3)), True), (('f3', Some(1)), False), (('f3', NONE()), False), (('f4', 1, 2), 1), (('f4', 2, 2), 2), (('f4', 3, 2), 3),
              (('f5', 1), 10), (('f5', 4), 20), (('f5', 9), 30), (('f6',), ['a', 'b', 'c']), (('f7', RVec([1, 3, 2, 3])), [3, 2, 1]),
              (('f8', RStr('abcdef')), '#ace'), (('f9',), 2), (('f10', RVec([1]), RVec([1, 2, 3])), 3),
-             (('f11',), 3), (('f12', 0), 0), (('f12', 1), 4), (('f12', 2), 10)]
+             (('f11',), 3), (('f12', 0), 0), (('f12', 1), 4), (('f12', 2), 10),
+             (('f13', RVec([1, 2, 3])), [2, 1]), (('f14', RVec([Some(1), Some(2), NONE(), Some(4)])), [1, 2]), (('f15',), [5, 7, 11])]
     bad = 0
     for args, want in cases:
         got = run(*args)
